@@ -485,3 +485,21 @@ ITEMS = [
                       text='assert(!self.last_scalar_kept_breaks && self.in_flow == 0);')],
          ensures=[('the_result_of_the_value_is_passed_on', 'r is Ok ==> true')]),
 ]
+
+# ---- known-finding obligations of serialize_str#block live in a light copy of the fragment ----
+# (a failing assertion makes Verus re-check the whole function body; in the fully annotated copy that re-check costs minutes,
+# so F19 / F20 are asserted in a copy that carries no other proof text, and the annotated copy verifies without errors)
+_KF = ('C20:a_block_scalar_carries_the_anchor_staged_for_it', 'C20:the_explicit_folded_wrapper_is_used_only_for_text_whose_line_breaks_it_preserves')
+def _split_known_findings():
+    idx = [i for i, x in enumerate(ITEMS) if x and x.get('id') == 'YamlSerializer::serialize_str#block'][0]
+    main = ITEMS[idx]
+    kf = dict(main)
+    kf['id'] = 'YamlSerializer::serialize_str#block_known_findings'
+    kf['wrapper'] = main['wrapper'].replace('fn serialize_str_block(', 'fn serialize_str_block_kf(')
+    kf['props'] = ['C20']
+    kf['proofs'] = [p for p in main['proofs'] if p.get('at') == 'start' or p.get('label') in _KF]
+    kf['loops'] = {k: dict(decreases=v['decreases']) for k, v in main['loops'].items()}
+    kf.pop('ensures', None); kf.pop('canaries', None)
+    main['proofs'] = [p for p in main['proofs'] if p.get('label') not in _KF]
+    ITEMS.insert(idx + 1, kf)
+_split_known_findings()
